@@ -51,6 +51,18 @@ fn with_reader<T, R: ByteReader>(r: &mut R, decode: &dyn Fn(&mut R) -> Result<T,
     Ok(())
 }
 
+/// decode T with reader R from exactly enc (the stream ends with the value): equal value, nothing left
+fn with_reader_exact<T, R: ByteReader>(r: &mut R, decode: &dyn Fn(&mut R) -> Result<T, String>, same: &dyn Fn(&T) -> bool) -> Result<(), String> {
+    let v = decode(r).map_err(|e| format!("at-end-of-stream {e}"))?;
+    if !same(&v) {
+        return Err("at-end-of-stream decoded value differs".into());
+    }
+    if r.has_more_bytes() {
+        return Err("at-end-of-stream bytes left".into());
+    }
+    Ok(())
+}
+
 macro_rules! all_readers {
     ($ty:ty, $enc:expr, $decode:expr, $same:expr, $fails:expr, $key:expr, $what:expr, $count:expr) => {{
         let mut data = $enc.clone();
@@ -63,6 +75,18 @@ macro_rules! all_readers {
                 let mut src = Chunked { data: &data, pos: 0, size };
                 let mut a = ReadAdapter::new(&mut src);
                 with_reader::<$ty, ReadAdapter>(&mut a, &|r| $decode(r), &$same)
+            })
+            .unwrap_or_else(|p| Err(format!("panic@{}", panic_key(&p))));
+            results.push((format!("adapter{size}"), res));
+        }
+        let exact = $enc.clone();
+        results.push(("slice".into(), guarded(|| with_reader_exact::<$ty, SliceReader>(&mut SliceReader::new(&exact), &|r| $decode(r), &$same)).unwrap_or_else(|p| Err(format!("panic@{}", panic_key(&p))))));
+        results.push(("cursor".into(), guarded(|| with_reader_exact::<$ty, std::io::Cursor<&[u8]>>(&mut std::io::Cursor::new(exact.as_slice()), &|r| $decode(r), &$same)).unwrap_or_else(|p| Err(format!("panic@{}", panic_key(&p))))));
+        for size in [1usize, 5, 1 << 20] {
+            let res = guarded(|| {
+                let mut src = Chunked { data: &exact, pos: 0, size };
+                let mut a = ReadAdapter::new(&mut src);
+                with_reader_exact::<$ty, ReadAdapter>(&mut a, &|r| $decode(r), &$same)
             })
             .unwrap_or_else(|p| Err(format!("panic@{}", panic_key(&p))));
             results.push((format!("adapter{size}"), res));
